@@ -22,8 +22,6 @@ use vmon::table::IdAlloc;
 use crate::common::*;
 use crate::ops::{self, Op, Shape};
 
-const URI: &str = "memory://t";
-const BASE: &str = "t";
 const OP_TIMEOUT_S: u64 = 40;
 
 #[derive(Clone, Debug)]
@@ -161,6 +159,14 @@ pub fn judge(
     })
 }
 
+/// classified path relative to the table root (so that labels do not depend on tempdir names)
+fn rel_class(base: &str, path: &str) -> String {
+    match path.strip_prefix(base) {
+        Some(rest) => classify_path(&format!("t{rest}")),
+        None => classify_path(path),
+    }
+}
+
 fn dense(versions: &[u64]) -> bool {
     versions.iter().enumerate().all(|(i, v)| *v == i as u64 + 1)
 }
@@ -208,6 +214,7 @@ fn plain_invariants(obs: &Obs) -> Option<Verdict> {
 
 /// (t, description) of the commit point of `version` in the logs, if it was applied.
 fn commit_point(
+    base: &str,
     kind: HandlerKind,
     events: &[Event],
     ext_events: &[ExtEvent],
@@ -221,14 +228,14 @@ fn commit_point(
                 e.applied
                     && e.kind.is_mutating()
                     && e.kind != Kind::Delete
-                    && matches!(vers_file(BASE, e.dest()), Some(VersFile::Detached(_)))
+                    && matches!(vers_file(base, e.dest()), Some(VersFile::Detached(_)))
             })
             .map(|e| (e.t, e.brief()));
     }
     if kind == HandlerKind::External {
         return ext_events
             .iter()
-            .find(|e| e.op == ExtOp::PutIfNotExists && e.applied && e.version == version && e.base == BASE)
+            .find(|e| e.op == ExtOp::PutIfNotExists && e.applied && e.version == version && e.base == base)
             .map(|e| (e.t, e.brief()));
     }
     events
@@ -237,7 +244,7 @@ fn commit_point(
             e.applied
                 && e.kind.is_mutating()
                 && e.kind != Kind::Delete
-                && final_manifest_version(BASE, e.dest()) == Some(version)
+                && final_manifest_version(base, e.dest()) == Some(version)
         })
         .map(|e| (e.t, e.brief()))
 }
@@ -289,6 +296,7 @@ struct Ctx<'a> {
     only_kind: Option<String>,
     only_handler: Option<String>,
     verbose: bool,
+    no_local: bool,
 }
 
 impl Ctx<'_> {
@@ -309,8 +317,8 @@ fn shape_of(obs: &Obs, v2: bool, arrow: &arrow_schema::Schema) -> Shape {
     }
 }
 
-async fn live_schema(p: &Proc) -> Option<(arrow_schema::Schema, bool)> {
-    let ds = p.actor.open(URI).await.ok()?;
+async fn live_schema(p: &Proc, uri: &str) -> Option<(arrow_schema::Schema, bool)> {
+    let ds = p.actor.open(uri).await.ok()?;
     let arrow: arrow_schema::Schema = ds.schema().into();
     let v2 = ds.manifest_location().naming_scheme == lance_table::io::commit::ManifestNamingScheme::V2;
     Some((arrow, v2))
@@ -342,9 +350,26 @@ async fn scenario(ctx: &Ctx<'_>, idx: u64) {
             want_kind = k;
         }
     }
-    let env = Env::new(handler);
+    // every 5th scenario lives on the local filesystem (Lance's local fast paths, e.g.
+    // `current_manifest_local`, real O_EXCL / hard-link commit); the external store mock is keyed
+    // by the table path, so that handler stays on memory://
+    let local = handler != HandlerKind::External && idx % 5 == 4 && !ctx.no_local;
+    let env = if local {
+        match Env::new_local(handler) {
+            Ok(e) => e,
+            Err(e) => {
+                report.harness_error(&format!("tempdir: {e}"));
+                return;
+            }
+        }
+    } else {
+        Env::new(handler)
+    };
+    let uri = env.uri();
+    let base = env.base();
+    let store_name = if local { "local_fs" } else { "memory" };
     let mut ids = IdAlloc::new(0);
-    let mut history: Vec<String> = vec![];
+    let mut history: Vec<String> = vec![format!("[store: {store_name}]")];
     let mut cur = Obs::Absent;
     let mut cur_validate_ok = true;
     let mut step_no = 0usize;
@@ -356,7 +381,7 @@ async fn scenario(ctx: &Ctx<'_>, idx: u64) {
             let shape = if s == 0 {
                 Shape::absent()
             } else {
-                let Some((arrow, v2)) = live_schema(&env.proc(40)).await else {
+                let Some((arrow, v2)) = live_schema(&env.proc(40), &uri).await else {
                     report.harness_error("cannot reopen the table during history generation");
                     return;
                 };
@@ -372,11 +397,11 @@ async fn scenario(ctx: &Ctx<'_>, idx: u64) {
                 }
             };
             step_no += 1;
-            let pre_paths: BTreeSet<String> = env.world.list_paths().await.into_iter().collect();
+            let pre_paths: BTreeSet<String> = env.list_paths().await.into_iter().collect();
             let log_from = env.world.log_len();
             let ext_from = env.ext.log.lock().unwrap().len();
             let w = env.proc(1);
-            let res = guarded(ops::apply(&op, &w.actor, URI), OP_TIMEOUT_S).await;
+            let res = guarded(ops::apply(&op, &w.actor, &uri), OP_TIMEOUT_S).await;
             let res: Result<(), String> = match res {
                 Err(GuardFail::Timeout) => {
                     report.inconclusive(&format!("case {idx}: history step {} timed out", op.describe()));
@@ -394,7 +419,7 @@ async fn scenario(ctx: &Ctx<'_>, idx: u64) {
                     String::new()
                 }
             ));
-            let (obs, extra) = match observe_guarded(&env.proc(50 + step_no), &env.world, URI).await {
+            let (obs, extra) = match observe_guarded(&env.proc(50 + step_no), &env).await {
                 Seen::Ok(o, x) => (o, x),
                 Seen::Unreadable(e) => {
                     report.violation(
@@ -409,7 +434,7 @@ async fn scenario(ctx: &Ctx<'_>, idx: u64) {
                         &sig,
                         "after a fault-free operation a fresh reader panics inside Lance while opening the table",
                         json!({"base": witness_base(ctx, idx, handler, &history, &op), "panic": msg,
-                               "versions_dir": env.world.list_paths().await.into_iter().filter(|p| p.contains("/_versions/")).collect::<Vec<_>>()}),
+                               "versions_dir": env.list_paths().await.into_iter().filter(|p| p.contains("/_versions/")).collect::<Vec<_>>()}),
                     );
                     report.count("scenarios_ended_by_reader_panic", 1);
                     return;
@@ -470,7 +495,7 @@ async fn scenario(ctx: &Ctx<'_>, idx: u64) {
                     if new_n > prev_n && !op.is_detached() {
                         let ev = env.world.events_since(log_from);
                         let xev: Vec<ExtEvent> = env.ext.events()[ext_from..].to_vec();
-                        match commit_point(handler, &ev, &xev, new_n, false) {
+                        match commit_point(&base, handler, &ev, &xev, new_n, false) {
                             None => {
                                 report.violation(
                                     "new-version-without-logged-manifest-create",
@@ -518,7 +543,7 @@ async fn scenario(ctx: &Ctx<'_>, idx: u64) {
                         eprintln!("case {idx}: validate failed on plain history: {e}");
                     }
                 }
-                let paths = env.world.list_paths().await;
+                let paths = env.list_paths().await;
                 let missing = missing_refs(&x.refs, &paths);
                 if !missing.is_empty() {
                     report.violation(
@@ -543,7 +568,7 @@ async fn scenario(ctx: &Ctx<'_>, idx: u64) {
     let shape = match &cur {
         Obs::Absent => Shape::absent(),
         _ => {
-            let Some((arrow, v2)) = live_schema(&env.proc(41)).await else {
+            let Some((arrow, v2)) = live_schema(&env.proc(41), &uri).await else {
                 report.harness_error("cannot reopen the table before the final operation");
                 return;
             };
@@ -562,16 +587,18 @@ async fn scenario(ctx: &Ctx<'_>, idx: u64) {
     let Some(final_op) = final_op else { return };
     let pre = cur.clone();
     let snap = env.snapshot().await;
-    let pre_paths: BTreeSet<String> = snap.objs.keys().cloned().collect();
     let pre_n = pre.latest().unwrap_or(0);
     let target = pre_n + 1;
     let detached = final_op.is_detached();
 
     // dry run
     let env_d = Env::restore(handler, &snap).await;
+    let uri_d = env_d.uri();
+    let base_d = env_d.base();
+    let pre_paths: BTreeSet<String> = env_d.list_paths().await.into_iter().collect();
     let w = env_d.proc(1);
     w.actor.store.reset_counters();
-    let res = guarded(ops::apply(&final_op, &w.actor, URI), OP_TIMEOUT_S).await;
+    let res = guarded(ops::apply(&final_op, &w.actor, &uri_d), OP_TIMEOUT_S).await;
     let res = match res {
         Err(GuardFail::Timeout) => {
             report.inconclusive(&format!("case {idx}: dry run of {} timed out", final_op.describe()));
@@ -583,7 +610,7 @@ async fn scenario(ctx: &Ctx<'_>, idx: u64) {
     let m = w.actor.store.mutating_calls();
     let dry_events = env_d.world.events();
     let dry_ext = env_d.ext.events();
-    let (post, post_extra) = match observe_guarded(&env_d.proc(2), &env_d.world, URI).await {
+    let (post, post_extra) = match observe_guarded(&env_d.proc(2), &env_d).await {
         Seen::Ok(o, x) => (o, x),
         Seen::Unreadable(e) => {
             report.violation(
@@ -598,7 +625,7 @@ async fn scenario(ctx: &Ctx<'_>, idx: u64) {
                 &sig,
                 "after a fault-free operation a fresh reader panics inside Lance while opening the table",
                 json!({"base": witness_base(ctx, idx, handler, &history, &final_op), "panic": msg,
-                       "versions_dir": env_d.world.list_paths().await.into_iter().filter(|p| p.contains("/_versions/")).collect::<Vec<_>>()}),
+                       "versions_dir": env_d.list_paths().await.into_iter().filter(|p| p.contains("/_versions/")).collect::<Vec<_>>()}),
             );
             if final_op.is_detached() && res.is_ok() && sig == SIG_DETACHED_PANIC {
                 // the admissible reader state of a detached commit is the pre-state in any case:
@@ -681,9 +708,9 @@ async fn scenario(ctx: &Ctx<'_>, idx: u64) {
         }
     }
     let dry_commit = if detached {
-        commit_point(handler, &dry_events, &dry_ext, target, true)
+        commit_point(&base_d, handler, &dry_events, &dry_ext, target, true)
     } else {
-        commit_point(handler, &dry_events, &dry_ext, post_n, false)
+        commit_point(&base_d, handler, &dry_events, &dry_ext, post_n, false)
     };
     let Some((t_commit, commit_what)) = dry_commit else {
         report.violation(
@@ -723,8 +750,8 @@ async fn scenario(ctx: &Ctx<'_>, idx: u64) {
                 format!(
                     "{} {}{}",
                     e.kind.name(),
-                    classify_path(&e.path),
-                    e.to.as_ref().map(|t| format!(" => {}", classify_path(t))).unwrap_or_default()
+                    rel_class(&base_d, &e.path),
+                    e.to.as_ref().map(|t| format!(" => {}", rel_class(&base_d, t))).unwrap_or_default()
                 )
             })
             .unwrap_or_else(|| format!("mutating call #{k}"));
@@ -742,6 +769,9 @@ async fn scenario(ctx: &Ctx<'_>, idx: u64) {
         }
     }
     report.count("scenarios", 1);
+    if local {
+        report.count("scenarios_on_local_filesystem", 1);
+    }
     ctx.bump(format!("scenarios.{}.{}", handler.name(), final_op.kind()), 1);
     *ctx.m_hist.lock().unwrap().entry(m).or_insert(0) += 1;
     let shape_brief = shape.brief();
@@ -754,6 +784,9 @@ async fn scenario(ctx: &Ctx<'_>, idx: u64) {
             break;
         }
         let env_c = Env::restore(handler, &snap).await;
+        let uri_c = env_c.uri();
+        let base_c = env_c.base();
+        let pre_paths: BTreeSet<String> = env_c.list_paths().await.into_iter().collect();
         let w = env_c.proc(1);
         w.actor.store.reset_counters();
         match cp {
@@ -768,7 +801,7 @@ async fn scenario(ctx: &Ctx<'_>, idx: u64) {
                 crash: true,
             }]),
         }
-        let r = guarded(ops::apply(&final_op, &w.actor, URI), OP_TIMEOUT_S).await;
+        let r = guarded(ops::apply(&final_op, &w.actor, &uri_c), OP_TIMEOUT_S).await;
         let (res_ok, res_txt) = match r {
             Err(GuardFail::Timeout) => {
                 report.inconclusive(&format!(
@@ -798,10 +831,10 @@ async fn scenario(ctx: &Ctx<'_>, idx: u64) {
         let mut commit: Option<(u64, String)> = None;
         let mut hole = false;
         if detached {
-            commit = commit_point(handler, &events, &xevents, target, true);
+            commit = commit_point(&base_c, handler, &events, &xevents, target, true);
         } else {
             for j in 1..=commits {
-                match commit_point(handler, &events, &xevents, pre_n + j, false) {
+                match commit_point(&base_c, handler, &events, &xevents, pre_n + j, false) {
                     Some(c) => {
                         if applied as u64 != j - 1 {
                             hole = true;
@@ -827,7 +860,7 @@ async fn scenario(ctx: &Ctx<'_>, idx: u64) {
             })
         };
         let class = format!("{}/{}/{}", handler.name(), final_op.kind(), cp.fault_name());
-        let (obs, extra) = match observe_guarded(&env_c.proc(2), &env_c.world, URI).await {
+        let (obs, extra) = match observe_guarded(&env_c.proc(2), &env_c).await {
             Seen::Ok(o, x) => (o, x),
             Seen::Unreadable(e) => {
                 report.violation(
@@ -855,6 +888,9 @@ async fn scenario(ctx: &Ctx<'_>, idx: u64) {
             }
         };
         report.count("crash_runs", 1);
+        if local {
+            report.count("crash_runs_on_local_filesystem", 1);
+        }
         ctx.bump(format!("crash_runs.{}.{}", handler.name(), final_op.kind()), 1);
         if let Obs::Table { per_version, .. } = &obs {
             report.count("versions_compared", per_version.len() as u64);
@@ -872,7 +908,7 @@ async fn scenario(ctx: &Ctx<'_>, idx: u64) {
             report.violation(&format!("{}:{class}", v.sig), &v.what, wit(json!({"observed": obs.brief()})));
         }
         if let Some(x) = &extra {
-            let paths = env_c.world.list_paths().await;
+            let paths = env_c.list_paths().await;
             let missing = missing_refs(&x.refs, &paths);
             if !missing.is_empty() {
                 report.violation(
@@ -901,14 +937,14 @@ async fn scenario(ctx: &Ctx<'_>, idx: u64) {
             report.count("debris_staging_manifests", x.staging.len() as u64);
         }
         // non-trivial: an object of the operation exists in the store, or the commit point itself
-        let now_paths = env_c.world.list_paths().await;
+        let now_paths = env_c.list_paths().await;
         let new_objects = now_paths.iter().filter(|p| !pre_paths.contains(*p)).count();
         let is_commit_call = match cp {
             CrashPoint::Store { k, .. } => dry_events.iter().any(|e| {
                 e.actor == 1
                     && e.mut_index == Some(*k)
-                    && (final_manifest_version(BASE, e.dest()).map(|v| v > pre_n).unwrap_or(false)
-                        || matches!(vers_file(BASE, e.dest()), Some(VersFile::Detached(_))))
+                    && (final_manifest_version(&base_d, e.dest()).map(|v| v > pre_n).unwrap_or(false)
+                        || matches!(vers_file(&base_d, e.dest()), Some(VersFile::Detached(_))))
             }),
             CrashPoint::Ext { op, .. } => *op == ExtOp::PutIfNotExists,
         };
@@ -944,7 +980,7 @@ async fn scenario(ctx: &Ctx<'_>, idx: u64) {
     }
     if report.want_sample() && complete {
         report.sample(json!({
-            "case": idx, "handler": handler.name(), "history": history,
+            "case": idx, "handler": handler.name(), "store": store_name, "history": history,
             "pre_state": shape_brief, "final_op": final_op.describe(),
             "mutating_calls_M": m, "crash_points": points.len(),
             "commit_point": commit_what, "outcomes": outcomes,
@@ -961,13 +997,13 @@ fn selftest(args: &Args) -> i32 {
         let env = Env::new(HandlerKind::CondPut);
         let w = env.proc(1);
         let create = ops::gen_create(&mut rng, &mut ids, Some(false));
-        ops::apply(&create, &w.actor, URI).await.expect("create");
-        let (pre, _) = observe(&env.proc(2), &env.world, URI).await.expect("observe");
-        let (arrow, v2) = live_schema(&env.proc(3)).await.unwrap();
+        ops::apply(&create, &w.actor, &env.uri()).await.expect("create");
+        let (pre, _) = observe(&env.proc(2), &env).await.expect("observe");
+        let (arrow, v2) = live_schema(&env.proc(3), &env.uri()).await.unwrap();
         let shape = shape_of(&pre, v2, &arrow);
         let app = ops::gen_kind("append", &mut rng, &shape, &mut ids).unwrap();
-        ops::apply(&app, &w.actor, URI).await.expect("append");
-        let (post, _) = observe(&env.proc(4), &env.world, URI).await.expect("observe");
+        ops::apply(&app, &w.actor, &env.uri()).await.expect("append");
+        let (post, _) = observe(&env.proc(4), &env).await.expect("observe");
         let mut fails = vec![];
         let st = vec![pre.clone(), post.clone()];
         if truncate(&post, 1) != pre {
@@ -1030,7 +1066,7 @@ fn selftest(args: &Args) -> i32 {
         }
         // 8. referenced object missing
         let refs = Refs { files: vec!["t/data/nope.lance".into()], index_prefixes: vec![] };
-        if missing_refs(&refs, &env.world.list_paths().await).is_empty() {
+        if missing_refs(&refs, &env.list_paths().await).is_empty() {
             fails.push("missing ref not flagged");
         }
         if refs_not_existing_before(&refs, &BTreeSet::new(), &env.world.events(), u64::MAX, false).is_empty() {
@@ -1075,6 +1111,7 @@ pub fn run(args: &Args) -> i32 {
         only_kind: args.extra.get("kind").cloned(),
         only_handler: args.extra.get("handler").cloned(),
         verbose: args.extra.contains_key("verbose"),
+        no_local: args.extra.contains_key("nolocal"),
     };
     report.assume("object_store::memory::InMemory implements put(Create), rename_if_not_exists and copy atomically");
     report.assume("a crash is modelled at storage-call granularity: the k-th mutating call (and every later call) of the writer fails, with the effect of call k either lost or applied");
